@@ -5,6 +5,7 @@ import (
 	"os"
 	"time"
 
+	"gosym/checks"
 	"gosym/oracle"
 	"gosym/sym"
 	"gosym/vm"
@@ -16,6 +17,32 @@ func main() {
 		os.Exit(2)
 	}
 	switch os.Args[1] {
+	case "check":
+		id := os.Args[2]
+		tier := os.Getenv("VERIF_TIER")
+		verbose := false
+		only := ""
+		for i := 3; i < len(os.Args); i++ {
+			switch os.Args[i] {
+			case "--tier":
+				i++
+				tier = os.Args[i]
+			case "-v":
+				verbose = true
+			case "--only":
+				i++
+				only = os.Args[i]
+			}
+		}
+		if tier == "" {
+			tier = "quick"
+		}
+		var seed int64 = 1
+		if sd := os.Getenv("VERIF_SEED"); sd != "" {
+			fmt.Sscanf(sd, "%d", &seed)
+		}
+		checks.Only = only
+		os.Exit(checks.Execute(id, tier, seed, verbose))
 	case "probe":
 		t0 := time.Now()
 		p, err := vm.Load("/repo", "/verif/harness", false)
